@@ -17,13 +17,26 @@ def cfg(mode, emit=True, dev="{}", live=True):
                       live="Termination" if live else "")
 
 
+def line_directive_program():
+    """Instantiations in a section of a file that a `//line` directive attributes to a file that does not exist (generated code):
+    the diagnostic is reported at the attributed position, with or without a source excerpt."""
+    import gen_all
+    u = ["package u", "", 'import "m/d"', "", "func plain() {", "\t_ = d.T{X: 1}", "}", "", "//line parser.y:40", "func generated() {",
+         "\t_ = d.T{X: 2}", "\t_ = new(d.T)", "\tvar v d.T", "\t_ = v", "}", ""]
+    exp = {("u/gen.go", 6, "CTOR01"), ("u/parser.y", 41, "CTOR01"), ("u/parser.y", 42, "CTOR02"), ("u/parser.y", 43, "CTOR03")}
+    prog = {"id": "C02_linedir", "pkgs": [{"path": "m/d", "name": "d", "files": [{"name": "d/d.go", "src": gen_all.D_SRC}]},
+                                         {"path": "m/u", "name": "u", "files": [{"name": "u/gen.go", "src": "\n".join(u)}]}]}
+    return (prog, exp, {"family": "instantiations below a //line directive naming a file that cannot be read"})
+
+
 def run(ctx):
     return c01.run_family(
         ctx, "Constructor", gen_imm.build_ctor, {"CTOR"}, cfg,
         modes_quick=[("single", 6000), ("seq2", None), ("spell", None)],
         modes_thorough=[("single", None), ("seq2", None), ("seq3", None), ("spell", None)],
-        devs=[("LeakWalkState", "seq2", ("Exact",)), ("CtorAnyPkg", "single0", ("Exact",)), ("CtorByBareName", "single0", ("Exact",)), ("NoUnalias", "spell", ("Exact",)), ("CtorAnyType", "single0", ("Exact",)), ("GroupDocLeaks", "single0", ("Exact",)), ("PruneReported", "single0", ("Exact",)), ("LastCtorLineOnly", "single", ("Exact",)), ("BareNameCache", "seq2", ("Exact",)), ("PtrAliasIsValue", "spell", ("Exact",))],
+        devs=[("LeakWalkState", "seq2", ("Exact",)), ("CtorAnyPkg", "single0", ("Exact",)), ("CtorByBareName", "single0", ("Exact",)), ("NoUnalias", "spell", ("Exact",)), ("CtorAnyType", "single0", ("Exact",)), ("GroupDocLeaks", "single0", ("Exact",)), ("VarFlagClobbered", "single0", ("Exact",)), ("PruneReported", "single0", ("Exact",)), ("LastCtorLineOnly", "single", ("Exact",)), ("BareNameCache", "seq2", ("Exact",)), ("PtrAliasIsValue", "spell", ("Exact",))],
         registry=True,
+        extra_real=[line_directive_program()],
         assumptions=["fragment: non-generic defined types, direct imports, one candidate statement per declaration",
                      "trailing comma in the constructor list and methods named like a constructor are not generated (unspecified)",
                      "diagnostics are compared as (file, line, code) sets of the CTOR category"],
